@@ -24,7 +24,9 @@ _SCPD = """<?xml version="1.0"?><scpd xmlns="urn:schemas-upnp-org:service-1-0"><
 
 def var_xml(decl: Dict[str, Any]) -> str:
     """decl: {"name", "type", "min"?, "max"?, "allowed"?: [..]}"""
-    out = f'<stateVariable sendEvents="yes"><name>{escape(decl["name"])}</name><dataType>{decl["type"]}</dataType>'
+    send = decl.get("send", "yes")      # "yes" | "no" | None (attribute absent): must make no difference to the NOTIFY path
+    attr = "" if send is None else f' sendEvents="{send}"'
+    out = f'<stateVariable{attr}><name>{escape(decl["name"])}</name><dataType>{decl["type"]}</dataType>'
     if decl.get("allowed"):
         out += "<allowedValueList>" + "".join(f"<allowedValue>{escape(a)}</allowedValue>" for a in decl["allowed"]) + "</allowedValueList>"
     if decl.get("min") is not None or decl.get("max") is not None:
